@@ -215,4 +215,55 @@ def planeOf {β : Type} (img : Img β) (cube : Nat) : Option (List (List β)) :=
 def WF {β : Type} (img : Img β) : Prop :=
   ∀ vol ∈ img.data, ∀ plane ∈ vol, plane.length = img.naxis2 ∧ ∀ r ∈ plane, r.length = img.naxis1
 
+
+/-! ### The file level: which HDU, and BSCALE -/
+
+def extHeaderHand (hdu : Nat) : Nat := hdu
+def extDataHand (hdu : Nat) : Nat := hdu
+def extCmpHand (hdu : Nat) : Nat := 0
+def scaledHand (has data bs : Nat) : Nat := if has = 1 then data * bs else data
+
+structure FilePieces where
+  extHeader : Nat → Nat
+  extData : Nat → Nat
+  extCmp : Nat → Nat
+  scaled : Nat → Nat → Nat → Nat
+
+def handFilePieces : FilePieces :=
+  { extHeader := extHeaderHand, extData := extDataHand, extCmp := extCmpHand, scaled := scaledHand }
+
+/-- one HDU of a file: the image, its BSCALE card if any, and whether the BANE compression keywords are present -/
+structure FHdu where
+  img : Img Nat
+  bscale : Option Nat
+  compressed : Bool
+
+/-- the BSCALE step as the code performs it: `has` is 1 when the card is present -/
+def applyScale (F : FilePieces) (bscale : Option Nat) (b : FullBand Nat) : FullBand Nat :=
+  match bscale with
+  | some v => { b with data := b.data.map (fun r => r.map (fun x => F.scaled 1 x v)) }
+  | none => { b with data := b.data.map (fun r => r.map (fun x => F.scaled 0 x 1)) }
+
+/-- `load_image_band(filename, band=(i, n), hdu_index=hdu, cube_index=cube)` on a file given as its HDUs; `expanded` is
+    the HDU list `expand(filename)` returns.  The header cards come from HDU `extHeader hdu`, the pixels from HDU
+    `extData hdu`; the compressed branch returns before the BSCALE step. -/
+def loadFullFile (P : Pieces) (F : FilePieces) (file expanded : List FHdu) (hdu cube : Nat) (i n : Int) :
+    Except FullErr (FullBand Nat) :=
+  let g := P.guard i n
+  if g ≠ 0 then .error (.guard g)
+  else match file[F.extHeader hdu]? with
+    | none => .error .index
+    | some hh =>
+      if hh.compressed then
+        match expanded[F.extCmp hdu]? with
+        | none => .error .index
+        | some e => loadFull P e.img true cube i n
+      else
+        match file[F.extData hdu]? with
+        | none => .error .index
+        | some dh =>
+          match loadFull P { hh.img with data := dh.img.data } false cube i n with
+          | .error e => .error e
+          | .ok b => .ok (applyScale F hh.bscale b)
+
 end Aegean.Model.C20
